@@ -430,6 +430,14 @@ func (g structReprTupleReprBuilderGenerator) emitListAssemblerChildListAssembler
 			case laState_finished:
 				panic("invalid state: Finish cannot be called on an assembler that's already finished")
 			}
+			{{- range $i, $field := .Type.Fields }}
+			{{- if not $field.IsOptional }}
+			if la.f <= {{ $i }} {
+				// A list that ends before a required field does not inhabit the type.
+				return schema.ErrMissingRequiredField{Missing: []string{"{{ $field.Name }}"}}
+			}
+			{{- end}}
+			{{- end}}
 			la.state = laState_finished
 			*la.m = schema.Maybe_Value
 			return nil
